@@ -173,3 +173,27 @@ def gen_case(rng, **kw):
     algs, allp = gen_cfg(rng, nadd=kw.pop("nadd", None), bad_prog=kw.pop("bad_prog", False), rich=kw.pop("rich", True))
     items = gen_script(rng, algs, allp, **kw)
     return " ".join(a["text"] for a in algs) + " SCRIPT " + " ".join(items)
+
+
+def project(trace, keep):
+    """keep only the events whose first token is in `keep` (the projection a property's relation compares)"""
+    parts = trace.split(" | ")
+    return " | ".join(p for p in parts if p.split(" ")[0] in keep or (p.startswith("TX ") and ("TX " + p.split(" ")[2]) in keep))
+
+
+def nprogs_of(args):
+    """number of distinct program names over algorithms with an instance"""
+    toks = args.split(" ")
+    names = set()
+    i = 0
+    while i < len(toks) and toks[i] != "SCRIPT":
+        if toks[i] == "ALG":
+            inst = toks[i + 2] == "1"
+            progs = toks[i + 4]
+            if inst and progs != "-":
+                for pr in progs.split(","):
+                    names.add(pr.split("=")[0])
+            i += 9
+        else:
+            i += 1
+    return len(names)
